@@ -7,6 +7,14 @@ def zlist(xs):
     return "[" + "; ".join(str(int(x)) for x in xs) + "]"
 
 
+def nats(xs):
+    return "[" + "; ".join("%d%%nat" % int(x) for x in xs) + "]"
+
+
+def blobs(xs):
+    return "[" + "; ".join(zlist(x) for x in xs) + "]"
+
+
 def coq_call(c):
     k = c[0]
     if k == "clock_time_get": return "ClockTimeGet %d %d" % (c[1], c[2])
@@ -16,10 +24,27 @@ def coq_call(c):
     if k == "args_get": return "ArgsGet"
     if k == "environ_sizes_get": return "EnvironSizesGet"
     if k == "environ_get": return "EnvironGet"
-    if k == "fd_read": return "FdRead %d %d%%nat" % (c[1], c[2])
-    if k == "fd_write": return "FdWrite %d %s" % (c[1], zlist(c[2]))
+    if k == "fd_read": return "FdRead %d %s" % (c[1], nats(c[2]))
+    if k == "fd_write": return "FdWrite %d %s" % (c[1], blobs(c[2]))
+    if k == "fd_pread": return "FdPread %d %s %d" % (c[1], nats(c[2]), c[3])
+    if k == "fd_pwrite": return "FdPwrite %d %s %d" % (c[1], blobs(c[2]), c[3])
     if k == "fd_prestat_get": return "FdPrestatGet %d" % c[1]
+    if k == "fd_prestat_dir_name": return "FdPrestatDirName %d %d" % (c[1], c[2])
     if k == "fd_fdstat_get": return "FdFdstatGet %d" % c[1]
+    if k == "fd_fdstat_set_flags": return "FdFdstatSetFlags %d %d" % (c[1], c[2])
+    if k == "fd_fdstat_set_rights": return "FdFdstatSetRights %d %d %d" % (c[1], c[2], c[3])
+    if k == "fd_filestat_get": return "FdFilestatGet %d" % c[1]
+    if k == "fd_filestat_set_size": return "FdFilestatSetSize %d %d" % (c[1], c[2])
+    if k == "fd_filestat_set_times": return "FdFilestatSetTimes %d %d %d %d" % (c[1], c[2], c[3], c[4])
+    if k == "fd_advise": return "FdAdvise %d %d %d %d" % (c[1], c[2], c[3], c[4])
+    if k == "fd_allocate": return "FdAllocate %d %d %d" % (c[1], c[2], c[3])
+    if k == "fd_close": return "FdClose %d" % c[1]
+    if k == "fd_datasync": return "FdDatasync %d" % c[1]
+    if k == "fd_sync": return "FdSync %d" % c[1]
+    if k == "fd_readdir": return "FdReaddir %d %d %d" % (c[1], c[2], c[3])
+    if k == "fd_renumber": return "FdRenumber %d %d" % (c[1], c[2])
+    if k == "fd_seek": return "FdSeek %d %d %d" % (c[1], c[2], c[3])
+    if k == "fd_tell": return "FdTell %d" % c[1]
     if k == "poll_clock": return "PollClock %d %d %d %d" % (c[1], c[2], c[3], c[4])
     if k == "poll":
         def sub(x):
@@ -29,12 +54,35 @@ def coq_call(c):
             return "SOther %d %d" % (x[1], x[2])
         return "Poll [%s]" % "; ".join(sub(x) for x in c[1])
     if k == "sched_yield": return "SchedYield"
-    if k == "path_open": return "PathOpen %d" % c[1]
+    if k == "path_open": return "PathOpen %d %s" % (c[1], zlist(c[2]))
+    if k == "path_create_directory": return "PathCreateDirectory %d %s" % (c[1], zlist(c[2]))
+    if k == "path_filestat_get": return "PathFilestatGet %d %d %s" % (c[1], c[2], zlist(c[3]))
+    if k == "path_filestat_set_times": return "PathFilestatSetTimes %d %d %s %d %d %d" % (c[1], c[2], zlist(c[3]), c[4], c[5], c[6])
+    if k == "path_link": return "PathLink %d %d %s %d %s" % (c[1], c[2], zlist(c[3]), c[4], zlist(c[5]))
+    if k == "path_readlink": return "PathReadlink %d %s %d" % (c[1], zlist(c[2]), c[3])
+    if k == "path_remove_directory": return "PathRemoveDirectory %d %s" % (c[1], zlist(c[2]))
+    if k == "path_rename": return "PathRename %d %s %d %s" % (c[1], zlist(c[2]), c[3], zlist(c[4]))
+    if k == "path_symlink": return "PathSymlink %s %d %s" % (zlist(c[1]), c[2], zlist(c[3]))
+    if k == "path_unlink_file": return "PathUnlinkFile %d %s" % (c[1], zlist(c[2]))
+    if k == "proc_exit": return "ProcExit %d" % c[1]
+    if k == "proc_raise": return "ProcRaise %d" % c[1]
+    if k == "sock_accept": return "SockAccept %d %d" % (c[1], c[2])
+    if k == "sock_recv": return "SockRecv %d %s %d" % (c[1], nats(c[2]), c[3])
+    if k == "sock_send": return "SockSend %d %s %d" % (c[1], blobs(c[2]), c[3])
+    if k == "sock_shutdown": return "SockShutdown %d %d" % (c[1], c[2])
     raise ValueError(k)
 
 
 def coq_res(r):
-    return "(%d, %s)" % (r["e"], zlist(r.get("b") or []))
+    e = r["e"]
+    return "(%s, %s)" % (("(%d)" % e) if e < 0 else str(e), zlist(r.get("b") or []))
+
+
+def live(calls):
+    """the calls a guest makes: up to and including its first proc_exit"""
+    for i, c in enumerate(calls):
+        if c[0] == "proc_exit": return calls[:i + 1]
+    return calls
 
 
 EPOCH_NS = 1640995200000 * 1000000      # 2022-01-01T00:00:00Z, the documented fake epoch
@@ -45,21 +93,61 @@ def le(bs):
     return sum(b << (8 * i) for i, b in enumerate(bs))
 
 
+def i32(v):
+    v &= 0xffffffff
+    return v - (1 << 32) if v >= (1 << 31) else v
+
+
+# where the descriptor argument(s) of a call sit
+FD_ARG = {"fd_read": [1], "fd_write": [1], "fd_pread": [1], "fd_pwrite": [1], "fd_prestat_get": [1], "fd_prestat_dir_name": [1],
+          "fd_fdstat_get": [1], "fd_fdstat_set_flags": [1], "fd_filestat_get": [1], "fd_filestat_set_size": [1],
+          "fd_filestat_set_times": [1], "fd_advise": [1], "fd_allocate": [1], "fd_close": [1], "fd_datasync": [1], "fd_sync": [1],
+          "fd_readdir": [1], "fd_renumber": [1], "fd_seek": [1], "fd_tell": [1], "path_open": [1], "path_create_directory": [1],
+          "path_filestat_get": [1], "path_filestat_set_times": [1], "path_link": [1, 4], "path_readlink": [1],
+          "path_remove_directory": [1], "path_rename": [1, 3], "path_symlink": [2], "path_unlink_file": [1],
+          "sock_accept": [1], "sock_recv": [1], "sock_send": [1], "sock_shutdown": [1]}
+# calls that would reveal or change a file, directory or socket of the host if they succeeded at all
+NEVER_OK = {"path_open", "path_create_directory", "path_filestat_get", "path_filestat_set_times", "path_link", "path_readlink",
+            "path_remove_directory", "path_rename", "path_symlink", "path_unlink_file", "sock_accept", "sock_recv", "sock_send",
+            "sock_shutdown", "fd_readdir"}
+NOW_FLAGS = 2 | 8
+
+
 def oracle(calls, trace, stream):
     """The property on one trace alone, from the documentation of the defaults (no model): clocks are the documented
-    sequences, random bytes continue the one fixed stream, no arguments/environment/stdin/files are visible."""
-    wall = mono = pos = 0
+    sequences (every value 1 ms after the previous READING; besides clock_time_get only a set_times call with a "now"
+    flag may read), random bytes continue the one fixed stream, no arguments/environment/stdin/files/sockets are visible,
+    the only descriptors are 0, 1, 2 until closed, a closed descriptor stays closed, and what a stdio descriptor shows
+    (fd_filestat_get) carries no timestamp, inode, device or size."""
+    wall_lo = wall_hi = mono = pos = 0
+    opened = {0: "in", 1: "out", 2: "out"}       # descriptor -> what it is (followed through close and renumber)
+    calls = live(calls)
+    if len(trace) != len(calls): return "the trace has %d entries for %d calls" % (len(trace), len(calls)), "length"
     for j, (c, r) in enumerate(zip(calls, trace)):
         k, e, b = c[0], r["e"], r.get("b") or []
+        if k == "proc_exit":
+            if e != -1 or le(b) != (c[1] & 0xffffffff): return "call %d %s did not end the guest with that exit code: %s" % (j, c, r), k
+            continue
+        if e < 0: return "call %d %s: the guest ended (%s) without calling proc_exit" % (j, c, r), k
+        fds = [i32(c[i]) for i in FD_ARG.get(k, [])]
+        if e == 0 and k in NEVER_OK: return "call %d %s succeeded: a file, directory or socket of the host is visible" % (j, c), k
+        if e == 0 and fds and k != "fd_renumber" and any(fd not in opened for fd in fds[:1]):
+            return "call %d %s succeeded on descriptor %d, which is not open (open: %s)" % (j, c, fds[0], sorted(opened)), k
         if k == "clock_time_get" and (c[1] & 0xffffffff) in (0, 1):
             if e != 0: return "call %d %s failed with errno %d" % (j, c, e), k
             if (c[1] & 0xffffffff) == 0:
-                want = EPOCH_NS + wall * MS; wall += 1
+                v = le(b)
+                if (v - EPOCH_NS) % MS or not (wall_lo <= (v - EPOCH_NS) // MS <= wall_hi):
+                    return "call %d %s returned %d, the documented fake clock gives %d + k ms for %d <= k <= %d" % (j, c, v, EPOCH_NS, wall_lo, wall_hi), k
+                wall_lo = wall_hi = (v - EPOCH_NS) // MS + 1
             else:
                 want = mono * MS; mono += 1
-            if le(b) != want: return "call %d %s returned %d, the documented fake clock gives %d" % (j, c, le(b), want), k
-        elif k == "clock_res_get" and c[1] in (0, 1):
-            if e != 0 or le(b) != (1000 if c[1] == 0 else 1): return "call %d %s -> errno %d resolution %s" % (j, c, e, le(b)), k
+                if le(b) != want: return "call %d %s returned %d, the documented fake clock gives %d" % (j, c, le(b), want), k
+        elif k in ("fd_filestat_set_times", "path_filestat_set_times"):
+            if c[-1] & NOW_FLAGS: wall_hi += 2       # each "now" timestamp may take a reading of the (fake) wall clock
+            if e == 0: return "call %d %s succeeded: there is no file whose times could be set" % (j, c), k
+        elif k == "clock_res_get" and (c[1] & 0xffffffff) in (0, 1):
+            if e != 0 or le(b) != (1000 if (c[1] & 0xffffffff) == 0 else 1): return "call %d %s -> errno %d resolution %s" % (j, c, e, le(b)), k
         elif k == "random_get":
             if e != 0 or len(b) != c[1]: return "call %d %s -> errno %d, %d bytes" % (j, c, e, len(b)), k
             if b != stream[pos:pos + c[1]]: return "call %d %s at stream position %d returned bytes that are not the fixed stream" % (j, c, pos), k
@@ -68,15 +156,29 @@ def oracle(calls, trace, stream):
             if e != 0 or any(b): return "call %d %s reports host data: errno %d sizes %s" % (j, c, e, b), k
         elif k in ("args_get", "environ_get"):
             if e != 0 or b: return "call %d %s wrote %s" % (j, c, b), k
-        elif k == "fd_read":
+        elif k in ("fd_read", "fd_pread"):
             if e == 0 and (le(b[:4]) != 0 or len(b) > 4): return "call %d %s delivered input %s" % (j, c, b), k
-            if e == 0 and (c[1] & 0xffffffff) != 0: return "call %d %s succeeded on a descriptor that is not stdin" % (j, c), k
-        elif k == "fd_write":
-            if e == 0 and (c[1] & 0xffffffff) not in (1, 2): return "call %d %s succeeded on a descriptor that is not stdout/stderr" % (j, c), k
-            if e == 0 and le(b) != len(c[2]): return "call %d %s wrote %d of %d bytes" % (j, c, le(b), len(c[2])), k
-        elif k in ("fd_prestat_get", "fd_fdstat_get", "path_open"):
-            fd = c[1] & 0xffffffff
-            if fd >= 3 and e == 0: return "call %d %s succeeded: a file, directory or socket of the host is visible" % (j, c), k
+            if e == 0 and opened.get(fds[0]) != "in" and any(c[2]): return "call %d %s read from a descriptor that is not stdin" % (j, c), k
+        elif k in ("fd_write", "fd_pwrite"):
+            total = sum(len(x) for x in c[2])
+            if e == 0 and total and (k == "fd_pwrite" or opened.get(fds[0]) != "out"): return "call %d %s wrote to something that is not stdout/stderr" % (j, c), k
+            if e == 0 and le(b) != total: return "call %d %s wrote %d of %d bytes" % (j, c, le(b), total), k
+        elif k == "fd_prestat_dir_name":
+            if e == 0 and b: return "call %d %s returned a name %s" % (j, c, b), k
+        elif k == "fd_filestat_get" and e == 0:
+            dev, ino, ft, nlink, size, at, mt, ct = (le(b[8 * i:8 * i + 8]) for i in range(8))
+            if dev or ino or size or at or mt or ct:
+                return "call %d %s shows host data: dev %d ino %d size %d atim %d mtim %d ctim %d" % (j, c, dev, ino, size, at, mt, ct), k
+            if ft in (3, 4, 7): return "call %d %s: descriptor is a directory, regular file or symlink (filetype %d)" % (j, c, ft), k
+        elif k in ("fd_seek", "fd_tell", "fd_filestat_set_size", "fd_allocate"):
+            if e == 0 and k == "fd_allocate" and ((c[2] + c[3]) & (2 ** 64 - 1)) == 0: pass      # nothing to allocate
+            elif e == 0: return "call %d %s succeeded: stdio has no position or size" % (j, c), k
+        elif k == "fd_close" and e == 0:
+            opened.pop(fds[0], None)
+        elif k == "fd_renumber" and e == 0:
+            src, dst = i32(c[1]), i32(c[2])
+            if src not in opened or dst < 0: return "call %d %s succeeded on a descriptor that is not open (open: %s)" % (j, c, sorted(opened)), k
+            opened[dst] = opened.pop(src)
         elif k == "poll_clock":
             if c[3] == 0 and e != 0: return "call %d %s failed with errno %d" % (j, c, e), k
         elif k == "poll" and e == 0:
@@ -87,16 +189,20 @@ def oracle(calls, trace, stream):
             got = sorted(le(ev[:8]) for ev in evs)
             want = sorted(x[3] if x[0] == "clock" else x[2] for x in c[1])
             if got != want: return "call %d %s answered userdata %s" % (j, c, got), k
+            for x in c[1]:          # a subscription on a closed descriptor is answered with an error, never as ready
+                if x[0] in ("read", "write") and i32(x[1]) not in opened:
+                    if all(le(ev2[8:10]) == 0 for ev2 in evs if le(ev2[:8]) == x[2]):
+                        return "call %d %s: subscription on closed descriptor %d reported ready" % (j, c, i32(x[1])), k
     return None, None
 
 
 def run(tier, seed):
     ck = Check("C18", tier, seed)
     ck.trusted += ["tools/go2coq: only constants are folded (FakeEpochNanos, ms, clock ids, errno values, rights); clockResolutionInvalid is transcribed (method call outside the subset)",
-                   "hand transcription of toSysContext/NewContext and of the WASI clock/random/args/environ/poll/sched/fd functions in coq/Sys/DefaultCtx.v, tied by the correspondence run",
+                   "hand transcription of toSysContext/NewContext and of all 46 wasi_snapshot_preview1 functions (as they act on the no-op stdio files and on closed descriptors: imports/wasi_snapshot_preview1/{fs,sock,poll,proc,clock,random,args,environ,sched}.go, internal/sys/{fs,stdio}.go, experimental/sys/unimplemented.go, wasip1.ToErrno) in coq/Sys/DefaultCtx.v, tied by the correspondence run",
                    "the fixed-seed random stream is abstract in the theorems; in the run it is taken from the longest trace of the first child process and every other trace, process and engine must continue the same stream",
                    "harness/c18 (Go: self re-executing children, proxy guest) and checks/c18.py (case conversion, oracle)"]
-    ck.assumptions += ["the guest uses only the modelled WASI calls (clock_time_get, clock_res_get, random_get, args/environ sizes+get, fd_read, fd_write, fd_prestat_get, fd_fdstat_get, poll_oneoff with one clock subscription and with lists of up to 8 clock / fd_read / fd_write / unknown subscriptions (all open descriptors blocking), sched_yield, path_open); memory-fault paths (EFAULT) belong to C15",
+    ck.assumptions += ["all 46 functions of wasi_snapshot_preview1 are modelled; pointer arguments are valid (memory-fault paths, EFAULT, belong to C15); path arguments are ASCII (fs.ValidPath also demands UTF-8: the model answers 'unmodelled' otherwise and the run never generates such a path); what the EMBEDDER gets when it calls into an instance after the guest's proc_exit is not part of the guest's trace (C06)",
                        "fd_prestat_get on descriptors 0..2 answers success with an empty name (stdio entries are flagged pre-open): modelled as implemented",
                        "math/rand's Read is positional (the k-th byte does not depend on chunking): checked by the run, assumed by the abstract stream"]
     proofs_ok = ck.proofs()
@@ -111,7 +217,7 @@ def run(tier, seed):
         if ln.startswith("{"):
             try: recs.append(json.loads(ln))
             except ValueError: pass
-    scripts = {r["script"]: r["calls"] for r in recs if r["t"] == "script"}
+    scripts = {r["script"]: live(r["calls"]) for r in recs if r["t"] == "script"}      # a guest's calls end with its proc_exit
     children = [r for r in recs if r["t"] == "child"]
     traces = [r for r in recs if r["t"] == "trace"]
     bad_children = [c for c in children if c["status"] != "ok"]
@@ -145,7 +251,8 @@ def run(tier, seed):
     stream = max((rand_bytes(si, variants[0]) for si in scripts), key=len)
 
     dist = {"calls": {}, "errno": {}, "variants": variants, "scripts": len(scripts), "random_bytes": 0, "clock_readings": 0,
-            "requested_sleep_ms": 0, "elapsed_ms_max": 0}
+            "requested_sleep_ms": 0, "elapsed_ms_max": 0, "fd_close_ok": 0, "calls_on_closed_stdio": 0, "proc_exit": 0,
+            "scripts_closing_stdin": 0, "wall_readings_by_set_times": 0}
     # 1. byte equality across processes, engines, start times, environments, interleaving (oracle) + per-trace oracle
     for si, calls in scripts.items():
         ref = by[si][variants[0]]["trace"]
@@ -170,7 +277,16 @@ def run(tier, seed):
             if req_sleep >= 1000 and t["ms"] >= req_sleep // 2:
                 report("property-fails", {"kind": "property-fails", "call": "poll_oneoff"},
                        {"script": si, "variant": var, "oracle": "the script asked for %d ms of sleep and took %d ms: sleeping is real" % (req_sleep, t["ms"])})
+        closed = set()
         for c, r in zip(calls, ref):
+            fds = [i32(c[i]) for i in FD_ARG.get(c[0], [])]
+            if fds and fds[0] in closed: dist["calls_on_closed_stdio"] += 1
+            if c[0] == "fd_close" and r["e"] == 0:
+                closed.add(fds[0]); dist["fd_close_ok"] += 1
+                if fds[0] == 0: dist["scripts_closing_stdin"] += 1
+            if c[0] == "proc_exit": dist["proc_exit"] += 1
+            if c[0] == "path_filestat_set_times" and c[-1] & 10 or c[0] == "fd_filestat_set_times" and c[-1] & 10 and r["e"] == 52:
+                dist["wall_readings_by_set_times"] += 1
             dist["calls"][c[0]] = dist["calls"].get(c[0], 0) + 1
             dist["errno"][str(r["e"])] = dist["errno"].get(str(r["e"]), 0) + 1
             if c[0] == "random_get": dist["random_bytes"] += c[1]
@@ -212,7 +328,7 @@ def run(tier, seed):
     ck.distinct = len({json.dumps(scripts[si]) for si in scripts if len(scripts[si]) > 2}) * len(variants)
     ck.dist = dist
     ck.samples = [dict(script=si, calls=scripts[si][:5], trace=by[si][variants[0]]["trace"][:5]) for si in list(scripts)[1:4]]
-    ck.extra["rule"] = ("WASI-only guest scripts generated from VERIF_SEED (plus one fixed probe script) run under wazero.NewModuleConfig() in %d traces each: "
+    ck.extra["rule"] = ("WASI-only guest scripts over all 46 wasi_snapshot_preview1 functions generated from VERIF_SEED (plus two fixed probe scripts: defaults, and every descriptor function on open / closed / never-opened descriptors while stdio is closed step by step, ending in proc_exit) run under wazero.NewModuleConfig() in %d traces each: "
                         "separate child processes with different environment, working directory, argv, start time (>= 1 s apart) and engine, and two "
                         "instances interleaved in one runtime; traces (errno + result bytes per call) must be byte-equal to each other (oracle), satisfy the "
                         "documented defaults (oracle) and equal the Coq model's trace; a case is one call of one trace, distinct by (script, variant)" % len(variants))
